@@ -23,7 +23,7 @@ META = {
                     "own Web-Mercator tile arithmetic used only for the bounds cross-check (1e-9 deg) and parent boxes"],
     "deciding": ["invariant:tiling", "post:get_index_of", "invariant:refinement"],
 }
-META["added"] = 'Added: special points (antimeridian, limits, beyond +-180) queried one by one, get_bbox clause, tile edges at exactly 0.0 probed within 1 ulp, clusters above threshold inside one maximum-zoom tile. array queries mixing inside and outside points, deep swarms refined to zoom 12-19 with a per-cell area clause. catalogs with events poleward of the Mercator limit.'
+META["added"] = 'Added: special points (antimeridian, limits, beyond +-180) queried one by one, get_bbox clause, tile edges at exactly 0.0 probed within 1 ulp, clusters above threshold inside one maximum-zoom tile. array queries mixing inside and outside points, deep swarms refined to zoom 12-19 with a per-cell area clause. catalogs with events poleward of the Mercator limit. get_cartesian before lookups.'
 MANIFEST = {
     "technique": "invariants on live QuadtreeGrid2D objects after each constructor (prefix-free quadkeys with dyadic measure 1 in exact integer arithmetic, bounds vs own tile arithmetic, refinement recount of every leaf and internal node, area sum) + post-condition on get_index_of vs brute-force exact containment on boundary-adjacent probes",
     "level_text": "Each constructed grid is checked as an object (tiling by exact dyadic measure, bounds, refinement criterion by recounting events per leaf and per internal node with the same half-open comparisons, cell areas) and every lookup of boundary-adjacent probe points is compared with the unique cell found by exact comparison against the grid's own bounds.",
@@ -172,6 +172,10 @@ def make_probes(bounds, rng, max_cells=400):
 
 def check_lookup(ctx, reg, rc, tags, rng, tiling):
     bounds = numpy.asarray(reg.bounds, dtype=float)
+    if int(rng.integers(0, 2)) and hasattr(reg, "get_cartesian"):
+        # history: the grid was asked for its bounding-box (plotting) layout before any point is located
+        ctx.call(reg.get_cartesian, numpy.arange(reg.num_nodes, dtype=float))
+        tags = dict(tags, history="get_cartesian first")
     lon, lat = make_probes(bounds, rng)
     cnt, first = containing(bounds, lon, lat)
     if numpy.any(cnt > 1):
